@@ -1994,3 +1994,12 @@ MA('C08', 'conjugate l2 factory projects y - g instead of y - sigma g',
    'prox_l2 = proximal_l2(space, lam=lam, g=g)',
    'prox_l2 = proximal_l2(space, lam=lam, g=None if g is None else 2 * g)',
    'R6')
+MA('C18', 'reciprocal space sorts the transform axes',
+   'odl/trafos/util/ft_utils.py', 'reciprocal_space',
+   'axes = normalized_axes_tuple(axes, space.ndim)',
+   'axes = tuple(sorted(normalized_axes_tuple(axes, space.ndim)))', 'R1c')
+MA('C18', 'inverse post-processing uses the phase of the forward sign',
+   'odl/trafos/fourier.py', 'FourierTransformInverse._postprocess',
+   'return dft_preprocess_data(x, shift=self.shifts, axes=self.axes, sign=self.sign, out=out)',
+   "return dft_preprocess_data(x, shift=self.shifts, axes=self.axes, sign='-' if self.sign == '+' else '+', out=out)",
+   'R4d')
